@@ -295,6 +295,7 @@ def run_threads(ns, ctx, spec):
     rng = ctx.rng
     codes = yieldrun.code_objects_of(BFm, BFm.Bf3File, BFm.Bf3Component, B.Bec2File, B.AesEncryptorMixin, B.SoftwareCustKeyEncryptor, B.UpdateAuthBlock, B.InitCustKeyAuthBlock, B.AuthBlock, ns.bytes_reader.BytesReader,
                                      ns.plugin.AES128Proxy, ns.aes.AESModeOfOperationCBC, ns.plugin.PrivateEccKeyProxy, ns.plugin.PublicEccKeyProxy, B.EccEncryptor, B.EccDecryptor, B.InitEccAuthBlock)
+    codes += [c_ for c_ in yieldrun.code_objects_of_module(ns.bf3file, ns.bec2file, ns.bytes_reader, ns.crypto, ns.plugin) if c_ not in codes]  # module-level helpers and every class of these modules
     total = 0
     for rnd in range(spec["rounds"]):
         nthreads = (2, 3)[rnd % 2]
